@@ -164,7 +164,9 @@ JCmp(a, b) ==
          [] a.t = "str"  -> SeqCmpNat(a.c, b.c)
          [] a.t = "num"  -> DecCmp(a, b)
          [] a.t = "arr"  -> ArrCmp(a.a, b.a, 1)
-         [] a.t = "obj"  -> IF JEq(a, b) THEN 0 ELSE 2        \* 2 = "some fixed strict order, not specified"
+         \* 2 = "some fixed strict order, not specified" - also between two objects that are equal up to the order of their members (= calls
+         \* them equal; the documentation gives objects no order at all, and the code orders them by their text)
+         [] a.t = "obj"  -> IF JSame(a, b) THEN 0 ELSE 2
 HasObjPair(c) == c = 2
 
 (***************************************************************************)
